@@ -113,6 +113,12 @@ def check(ctx, report):
     report.floor('C04.R1', 30, 'NotEnoughData construction sites')
     framing(ctx, report)
     header_constants(ctx, report)
+    # SSL 2.0: the number of bytes a reader is told to wait for is the RECORD-LENGTH the parser derives from the header bytes;
+    # decided by the tabulation of that arithmetic over all header values, both header forms (shared with C06.R4)
+    from .c06 import ssl2_parse_header
+    report.rule('C04.R7', 'SSL 2.0 record: the length the completeness gate waits for is the RECORD-LENGTH of the specification for every header value')
+    ssl2_parse_header(ctx, report, model.cls('SslRecord'), RULE='C04.R7')
+    report.floor('C04.R7', 1000, 'tabulated SSL 2.0 header values')
 
 
 def reviewed_fact(cons, f, call, payload):
@@ -188,6 +194,34 @@ def framing(ctx, report):
             for ch in checks:
                 if is_ned(ch):
                     gate = 'explicit guard %s' % show(ch[1])[:60]
+        if gate is not None and lenkey:
+            # the gate has to be met on every path that returns a frame, not on one branch only
+            def is_gate(x):
+                if isinstance(x, Op) and x.side == 'parse':
+                    if x.key == lenkey and (x.prim in ('parse_bytes', 'parse_string') or
+                                            (x.prim == 'parse_parsable' and x.args.get('item_size') is not None)):
+                        return True
+                    if x.prim == 'parse_raw' and mentions_field(x.args.get('size'), lenkey):
+                        return True
+                return isinstance(x, tuple) and x[0] == 'check' and is_ned(x) and mentions_field(x[1], lenkey)
+
+            def ends(seq):
+                return any(isinstance(x, Raise) for x in seq[-1:]) if seq else False
+
+            def gated(seq):
+                for x in seq:
+                    if is_gate(x):
+                        return True
+                    if isinstance(x, tuple) and x[0] == 'alt':
+                        a, b = x[2], x[3]
+                        if (gated(a) or ends(a)) and (gated(b) or ends(b)) and (gated(a) or gated(b)):
+                            return True
+                    if isinstance(x, tuple) and x[0] == 'try' and gated(x[2]):
+                        return True
+                return False
+            if not gated(items):
+                report.add('C04.R2', cons + '@gate[some-path]', 'the completeness gate on %s (%s) is met on some paths only: another branch '
+                           'returns a frame without having checked that the declared bytes are there' % (lenkey, gate))
         if gate is None:
             report.add('C04.R2', cons + '@gate', 'no completeness gate on the declared frame length before the body is parsed')
         else:
